@@ -21,6 +21,7 @@ import TfelVerif.C23.PropsN3_DTAU_DF__DPK1_DF
 import TfelVerif.C23.PropsN3_SPATIAL_MODULI__C_TAU_JAUMANN
 import TfelVerif.C23.PropsN3_SPATIAL_MODULI__C_TRUESDELL
 import TfelVerif.C23.PropsN3_SPATIAL_MODULI__DS_DEGL
+import TfelVerif.C23.PropsStress
 
 namespace TfelVerif.C23.PropsN3Chains
 open TfelVerif TfelVerif.Mandel TfelVerif.C23
@@ -40,6 +41,22 @@ theorem N3_DTAU_DF__SPATIAL_MODULI (hc : c * c = 2) (h2 : (2:K) ≠ 0)
   unfold Gen.N3_DTAU_DF__SPATIAL_MODULI_r
   refine (PropsN3_DTAU_DF__C_TAU_JAUMANN.N3_DTAU_DF__C_TAU_JAUMANN c c3 fn hc h2 (hJ := hJ) ..).trans ?_
   exact PropsN3_C_TAU_JAUMANN__SPATIAL_MODULI.N3_C_TAU_JAUMANN__SPATIAL_MODULI c c3 fn hc h2 ..
+
+/-- `DS_DEGL ← SPATIAL_MODULI` (3D): along every variation `δF = L F` the converted operator, applied to the
+rate of its kinematic variable, gives the rate of the second Piola–Kirchhoff stress that reproduces the same Lie derivative of
+the Kirchhoff stress as the source operator (rate of the Lie derivative of the Kirchhoff stress) does. -/
+theorem N3_DS_DEGL__SPATIAL_MODULI (hc : c * c = 2) (h2 : (2:K) ≠ 0)
+    (D : Nat → Nat → K) (F0 F : M3 K) (L : M3 K) (s : Nat → K) (hJ : F.det ≠ 0) :
+    upper (lamS F (M3.ofMandel c [s 0, s 1, s 2, s 3, s 4, s 5]) L (M3.ofMandel c (act (Gen.N3_DS_DEGL__SPATIAL_MODULI_r c c3 fn D (tensv F0) (tensv F) s) (M3.mandel3 c (dE F L)))))
+      = upper (lamSM F (M3.ofMandel c [s 0, s 1, s 2, s 3, s 4, s 5]) L (M3.ofMandel c (act (rowsOf D i6 i6) (M3.mandel3 c (symm L))))) := by
+  have hFG := PropsStress.N3_invert c c3 fn F hc hJ
+  have T1 := PropsN3_SPATIAL_MODULI__DS_DEGL.N3_SPATIAL_MODULI__DS_DEGL c c3 fn hc h2 D F0 (vecOf (Gen.N3_invert_r c c3 fn (tensv F))) (dE F L) s
+  have e : M3.ofTens [vecOf (Gen.N3_invert_r c c3 fn (tensv F)) 0, vecOf (Gen.N3_invert_r c c3 fn (tensv F)) 1, vecOf (Gen.N3_invert_r c c3 fn (tensv F)) 2, vecOf (Gen.N3_invert_r c c3 fn (tensv F)) 3, vecOf (Gen.N3_invert_r c c3 fn (tensv F)) 4, vecOf (Gen.N3_invert_r c c3 fn (tensv F)) 5, vecOf (Gen.N3_invert_r c c3 fn (tensv F)) 6, vecOf (Gen.N3_invert_r c c3 fn (tensv F)) 7, vecOf (Gen.N3_invert_r c c3 fn (tensv F)) 8] = M3.ofTens (Gen.N3_invert_r c c3 fn (tensv F)) := rfl
+  rw [e, symm_of_symmetric h2 (dE_transpose F L), dE_inv h2 hFG L] at T1
+  unfold lamSM lamS at T1
+  unfold lamSM lamS Gen.N3_DS_DEGL__SPATIAL_MODULI_r
+  have hX := eq_of_upper (ofMandel_symm c _) (conj_symm (ofMandel_symm c _)) T1
+  rw [pull_back_alg hFG hX]
 
 /-- `DSIG_DF ← DS_DEGL` (3D): along every variation `δF = L F` the converted operator, applied to the
 rate of its kinematic variable, gives the rate of the Cauchy stress that reproduces the same Lie derivative of
